@@ -13,6 +13,7 @@ RD_ERRNOS = [104, 110, 113, 101]    # reads: the kernel never answers EPIPE to r
 
 # scenario profiles: weights of the step kinds and knobs, per property emphasis
 PROFILES = {
+    "blocking": dict(send=20, recv=20, fin=8, await_=6, close=2, probe=2, inj=0.0, big=0.15, odd=0.08, steps=(6, 24), blk=0.45),
     "default": dict(send=30, recv=30, fin=12, await_=12, close=3, probe=3, inj=0.02, big=0.05, odd=0.06, steps=(8, 40)),
     "C01": dict(send=34, recv=34, fin=10, await_=8, close=2, probe=2, inj=0.0, big=0.08, odd=0.02, steps=(10, 50)),
     "C02": dict(send=36, recv=36, fin=8, await_=6, close=2, probe=2, inj=0.0, big=0.08, odd=0.02, steps=(10, 50)),
@@ -55,12 +56,41 @@ def gen_exec(r, xid, tp, prof, raw=False):
     alive = {1: True, 2: True}
     kinds = ["send"] * p["send"] + ["recv"] * p["recv"] + ["fin"] * p["fin"] + ["await_"] * p["await_"] + \
             ["close"] * p["close"] + ["probe"] * p["probe"]
+    pb = p.get("blk", 0.0)
+    if pb and not seq and r.random() < 0.5:
+        lines.append("Z %d" % r.choice([4096, 8192, 16384, 65536]))
     for _ in range(n):
         k = r.choice(kinds)
         live = [e for e in (1, 2) if alive[e]]
         if not live:
             break
         e = r.choice(live)
+        if pb and r.random() < pb and alive[1] and alive[2]:
+            # a blocking call on e in the helper thread while the peer acts; then join (sometimes with a signal)
+            o = 3 - e
+            if r.random() < 0.6:
+                ln = pick_len(r, p, stream)
+                if stream and r.random() < 0.5:
+                    ln = r.choice([20000, 60000, 65535, 30000])
+                lines.append("B s %d %d" % (e, ln))
+                x = r.random()
+                if x < 0.7:
+                    lines.append("D %d %d %d" % (o, r.choice([3, 50, 300]), r.choice([100, 3000, 70000])))
+                elif x < 0.85:
+                    lines.append("r %d 70000 -1 0 -1 0" % o)
+                lines.append("J %d %d" % (1 if r.random() < 0.25 else 0, r.choice([20, 200])))
+            else:
+                lines.append("B r %d %d" % (e, r.choice([1, 5, 100, 70000])))
+                x = r.random()
+                if x < 0.6:
+                    lines.append("s %d %d %d 0 0" % (o, pick_len(r, p, stream), pick_credit(r, 20)))
+                    if r.random() < 0.7:
+                        lines.append("f %d -1 0" % o)
+                elif x < 0.75:
+                    lines.append("c %d 0" % o)
+                    alive[o] = False
+                lines.append("J %d %d" % (1 if r.random() < 0.3 else 0, r.choice([20, 200])))
+            continue
         # AF_UNIX SEQPACKET never reports a transient error on a healthy connection: no errno injection there
         inj = r.choice(ERRNOS) if (r.random() < p["inj"] and not seq) else 0
         if inj == 32 and alive[3 - e]:
